@@ -550,11 +550,6 @@ def features(v, f, ann_len):
     d = f.get("dflt")
     if d and d["how"] == "kw" and not _truthy(d["v"]):
         out.append("falsy-default-kw")
-    cls_like = top
-    while cls_like["s"] in ("union", "pipe") and same_type_obj(cls_like["x"], cls_like["y"]):
-        cls_like = cls_like["x"]          # `Union[int, int]` / `int | int` IS `int`
-    if d and d["how"] == "eqF" and cls_like["s"] in ("builtin", "bareBuiltin", "dictBare") and _truthy(d["v"]):
-        out.append("default-factory-once")      # the annotation converts to a Field CLASS: factory called at definition
     res = []
     for x in out:
         if x not in res:
@@ -966,7 +961,7 @@ def struct_cases(rng, tier):
                         decl = f"{decl} = {fsrc}"
                 for future in (False, True):
                     variants.append({"future": future, "body": [decl, "b: str"] + (["_optional = ['a']"] if opt else []),
-                                     "site": "pep604-structure-first" if decl.startswith("a: Owner |") else "plain"})
+                                     "site": "plain"})
             cases.append({"suite": "elab", "oracle_only": True, "family": fam, "factory": with_factory,
                           "variants": variants})
     return cases
@@ -1267,12 +1262,10 @@ def field_features(case, model, i):
     return out
 
 
-PRIORITY = ["falsy-default-kw", "default-factory-once", "typing-union-duplicate", "typing-union-flattened"]
+PRIORITY = ["falsy-default-kw", "typing-union-duplicate", "typing-union-flattened"]
 
 CAUSES = {
     "definition-error": ["falsy-default-kw"],
-    "default-factory-differs": ["default-factory-once"],
-    "default-differs": ["default-factory-once"],
     "error-class-differs": ["typing-union-duplicate"],
 }
 
